@@ -12,7 +12,7 @@
 //!   id     = [term, index]            Option<x> = [0] | [1] x
 //!   P      = [n] b*n                  State = [1] opt(vote) opt(last) opt(committed) opt(purged) opt(user_data:u8)
 use crate::kani_support::ghost_fs as gfs;
-use crate::kani_support::ktypes::P;
+use crate::kani_support::ktypes::Pay;
 
 pub(crate) type Id = (u8, u8);
 
@@ -26,6 +26,7 @@ impl Img {
     pub(crate) fn new(slot: usize, chunk_id: u64) -> Img {
         let g = gfs::fs();
         g.track_bytes = true;
+        g.skip_write_bytes = true;
         g.files[slot].used = true;
         g.files[slot].exists = true;
         g.files[slot].chunk_id = chunk_id;
@@ -92,15 +93,16 @@ impl Img {
     }
 
     /// payload length `n` must be a constant at the call site
-    pub(crate) fn append(&mut self, id: Id, p: P) -> usize {
+    pub(crate) fn append<Q: Pay>(&mut self, id: Id, p: Q) -> usize {
+        let (pn, pb) = p.nb();
         let s = self.pos;
         self.tag(1);
         self.id(id);
-        self.put(p.n);
+        self.put(pn);
         let mut i = 0;
         while i < 3 {
-            if i < p.n {
-                self.put(p.b);
+            if i < pn {
+                self.put(pb);
             }
             i += 1;
         }
